@@ -1,6 +1,6 @@
 """Internet Relay Chat message"""
 
-from .utils import parsemsg
+from .utils import joinprefix, parsemsg
 
 
 class Error(Exception):
@@ -10,7 +10,8 @@ class Error(Exception):
 class Message:
     def __init__(self, command, *args, **kwargs):
         self.command = command
-        self.prefix = str(kwargs['prefix']) if 'prefix' in kwargs else None
+        prefix = kwargs.get('prefix')
+        self.prefix = str(prefix) if prefix is not None else None
 
         self.encoding = kwargs.get('encoding', 'utf-8')
         self.add_nick = kwargs.get('add_nick', False)
@@ -29,7 +30,9 @@ class Message:
         if len(s) > 512:
             raise Error('Message must not be longer than 512 characters')
 
-        prefix, command, args = parsemsg(s)
+        (nick, user, host), command, args = parsemsg(s)
+        # (parsemsg gives the parts of the prefix: put the text back together)
+        prefix = nick if user is None and host is None else joinprefix(nick, user, host)
 
         return Message(command, *args, prefix=prefix)
 
